@@ -65,7 +65,8 @@ Elem(ns, name, xt, attrs, text, kids) == [ns |-> ns, name |-> name, xsitype |-> 
 Leaf(ns, name, text) == Elem(ns, name, NONE, <<>>, text, <<>>)
 
 \* the namespace the library components (h, m_i, Base, Ext) live in
-LibNs(s) == IF s.split = "import" THEN "urn:o" ELSE T
+\* ("importSameName": as "import", and the importing schema defines a type of its own with the NAME of an imported one)
+LibNs(s) == IF s.split \in {"import", "importSameName"} THEN "urn:o" ELSE T
 
 \* content of an element of (actual) type t; `k` varies optional parts
 Content(s, t, k) ==
@@ -114,7 +115,9 @@ DocOf(s, k) ==
            ELSE << Leaf(T, "end", "z") >> \o
                 (IF k % 2 = 0 THEN <<>> ELSE << Elem("urn:f", "w", NONE, << [name |-> "z", v |-> "9"] >>, "", << Leaf("urn:f", "i", "in") >>) >>)
       attrs == IF s.agrp THEN << [name |-> "a1", v |-> "5"] >> \o (IF k % 2 = 0 THEN << [name |-> "a2", v |-> "two"] >> ELSE <<>>) ELSE <<>>
-      kids == heads \o also \o e \o g \o r \o w
+      \* the importing schema's own type called Base (content: one element z), next to the library's Base
+      own == IF s.split = "importSameName" THEN << Elem(T, "own", NONE, <<>>, "", << Leaf(T, "z", "zed") >>) >> ELSE <<>>
+      kids == heads \o also \o own \o e \o g \o r \o w
       \* mixed content (complexType mixed="true"): character data before, between and after the children;
       \* texts[j] precedes child j, texts[Len(kids) + 1] follows the last child ("" = no text there)
       texts == [j \in 1..(Len(kids) + 1) |-> IF s.mixed /\ (j + k) % 2 = 0 THEN <<"tx", "ty", "tz">>[(j % 3) + 1] ELSE ""]
